@@ -743,8 +743,21 @@ class Behavior(_IModel):
 
         r, sig, N, dNdSig = self.__Residual(eps6_e_pg, u, zOld_e_pg, C_e_pg, dt)
 
+        if self.__yield is not None and self.__branches:
+            # The branches relax during the step whether or not the material flows, and that
+            # moves the stress. The state that decides which points flow is therefore the one
+            # reached WITHOUT flow (dGamma = 0, branches relaxed over dt), not the committed one:
+            # a stress that starts inside the surface can relax out of it (kinematic hardening
+            # has moved the surface away from the relaxed stress), and the other way round.
+            # With dGamma pinned the residual is linear in the increments: one solve is exact.
+            nobody = FeArray.zeros(Ne, nPg, dtype=bool)  # no point flows
+            J, _ = self.__Jacobian(u, zOld_e_pg, N, dNdSig, C_e_pg, dt)
+            self.__Freeze(J, None, r, u, nobody)
+            u = u - np.linalg.solve(J, r[..., None])[..., 0]
+            r, sig, N, dNdSig = self.__Residual(eps6_e_pg, u, zOld_e_pg, C_e_pg, dt)
+
         if self.__yield is not None:
-            active = r[..., nz] > 0.0  # f(sig_trial, R_n) > 0
+            active = r[..., nz] > 0.0  # f > 0 at the no-flow predictor (the trial state)
             if self.__rate is not None:
                 # dinverse is unbounded at zero flow, so start from the explicit rate estimate
                 # rather than from dGamma = 0, where Newton would not move
